@@ -76,8 +76,12 @@ def cases(ctx, budget):
                 return [0, [nd.location for nd in echo_seg.resolve([root])]]
             except jp.JSONPathRecursionError:
                 return [1, 6]
-        for script, out in chooser.enumerate_outcomes(run, cap):
+            except chooser.Runaway:
+                return [9, 8]
+        for script, out in chooser.enumerate_outcomes(run, cap, max_choices=MAX_CHOICES):
             cnt += 1
+            if out[0] == 9:
+                yield nonstop({"value": v, "script": script[:200]}); full = False; break
             if out[0] == 0:
                 enc = [0] + wire.enc_list(lambda l: wire.enc_list(wire.enc_key, list(l)), out[1])
                 outcomes.add(tuple(tuple(l) for l in out[1]))
@@ -133,8 +137,11 @@ def cases(ctx, budget):
             def runq(s, v=v, qt=qt):
                 try: return [0, tuple(nd.location for nd in env.find(qt, v))]
                 except jp.JSONPathRecursionError: return [1, 6]
-            for script, out in chooser.enumerate_outcomes(runq, cap):
+                except chooser.Runaway: return [9, 8]
+            for script, out in chooser.enumerate_outcomes(runq, cap, max_choices=MAX_CHOICES):
                 cnt += 1
+                if out[0] == 9:
+                    yield nonstop({"value": v, "query": qt, "script": script[:200]}); full = False; break
                 if out[0] == 0: results.add(out[1])
             if cnt >= cap: full = False
 
@@ -188,9 +195,12 @@ def cases(ctx, budget):
                 with Episodes(s, qnd) as ep:
                     try: out = [0, tuple(nd.location for nd in qnd.find(v))]
                     except jp.JSONPathRecursionError: out = [1, 6]
+                    except chooser.Runaway: return [9, 8]
                 return out + [ep.supply(), ep.nested_supply()]
-            for script, out in chooser.enumerate_outcomes(rund, cap):
+            for script, out in chooser.enumerate_outcomes(rund, cap, max_choices=MAX_CHOICES):
                 cnt += 1
+                if out[0] == 9:
+                    yield nonstop({"value": v, "query": qt, "script": script[:200]}); full = False; break
                 if out[0] == 0:
                     results.add(out[1])
                     if out[2] is not None and out[3] is not None and (cnt <= 60 or rng.random() < 0.02):
@@ -256,6 +266,15 @@ def cases(ctx, budget):
             for g in sorted(nodes): res += g
             return res
         yield Case({"text": text, "value": v}, None, out, [103] + reg + gen.enc_rxtable(rows) + gen.enc_segs(q) + wire.enc_json(v), expect, len(out) > 2, "query-multiset")
+
+
+MAX_CHOICES = 20000       # far more random choices than an evaluation that stops makes on the small values used here
+
+
+def nonstop(desc):
+    """the evaluation kept drawing random choices: it does not stop on this input - a failing input of the property (every outcome is a result)"""
+    return Case(desc, None, [9], [118, 0], None, True, "does-not-stop", True,
+                lambda a, b: "evaluation in nondeterministic mode does not stop (still drawing random choices after %d)" % MAX_CHOICES)
 
 
 def dec_loclists(spec):
